@@ -279,6 +279,10 @@ def ite(c, a, b):
     if a.sort == "B":
         return or_(and_(c, a), and_(not_(c), b))
     sort = _num_sort(a, b)
+    if sort == "R":
+        a, b = to_real(a), to_real(b)
+        if a is b:
+            return a
     if c.op == "not":
         c, a, b = c.args[0], b, a
     return _mk("ite", (c, a, b), sort)
